@@ -4,6 +4,7 @@ package c18
 import (
 	stdjson "encoding/json"
 	"fmt"
+	"github.com/jsightapi/jsight-schema-go-library/notations/jschema"
 	"regexp"
 	"strings"
 	"time"
@@ -21,7 +22,7 @@ func init() {
 	ev.Register(&ev.Check{
 		ID:             "C18",
 		Level:          "exploration",
-		Rule:           "enum: ALL value lists of <= 3 (thorough 4) items over {1,1.5,\"a\",\"1\",true,null,\"b\"} incl. duplicates x 7 layouts (one line, one per line, // comments, /* */ comments, comment-only lines, blank lines, CRLF): schema `v // {enum: @E}` + rule must give the same verdict as the inline list on 14 probes; duplicate values <=> rule Check fails; Values()/GetAST() list the literals in source order. regex: ALL strings <= 4 (5) over {a b . * + ? | ( ) [ ] ^ $ \\ / \"} that regexp.Compile accepts, written /P/ with / escaped: type @T, inline {regex: P} and regexp.MatchString must agree on ALL strings <= 3 over {a,b,/,\",\\}; Example() of the regex type matches P; Len == len(/P/) with trailing text. Non-trivial = distinct (list, layout) or pattern.",
+		Rule:           "enum: ALL value lists of <= 3 (thorough 4) items over {1,1.5,\"a\",\"1\",true,null,\"b\"} incl. duplicates x 7 layouts (one line, one per line, // comments, /* */ comments, comment-only lines, blank lines, CRLF): schema `v // {enum: @E}` + rule must give the same verdict as the inline list on 14 probes; duplicate values <=> rule Check fails; Values()/GetAST() list the literals in source order; ONE rule object referenced by two properties and added to a second schema behaves like the inline list and is itself unchanged afterwards. regex: ALL strings <= 4 (5) over {a b . * + ? | ( ) [ ] ^ $ \\ / \"} that regexp.Compile accepts, written /P/ with / escaped: type @T, inline {regex: P} and regexp.MatchString must agree on ALL strings <= 3 over {a,b,/,\",\\}; Example() of the regex type matches P; Len == len(/P/) with trailing text. Non-trivial = distinct (list, layout) or pattern.",
 		Run:            run,
 		Replay:         replay,
 		QuickBudget:    80 * time.Second,
@@ -161,6 +162,44 @@ func evalEnum(cs caseT) (string, string) {
 		}
 		if member != a.OK && p != "1.50" {
 			return "membership", fmt.Sprintf("document %s against enum %v: %s", p, cs.Items, a)
+		}
+	}
+	// ONE rule object referenced twice in a schema and added to a second schema:
+	// using the rule must not change it.
+	shared := enum.New("@E", text)
+	s1 := jschema.New("s1", "{\n  \"a\": "+ex+", // {enum: @E}\n  \"b\": "+ex+" // {enum: @E}\n}")
+	r1 := lib.Guard(func() error {
+		if err := s1.AddRule("@E", shared); err != nil {
+			return err
+		}
+		return s1.Check()
+	})
+	if !r1.OK {
+		return "shared-rule", fmt.Sprintf("rule %q referenced by two properties of one schema: %s, while a single reference is accepted", text, r1)
+	}
+	s2 := jschema.New("s2", ex+" // {enum: @E}")
+	r2 := lib.Guard(func() error {
+		if err := s2.AddRule("@E", shared); err != nil {
+			return err
+		}
+		return s2.Check()
+	})
+	if !r2.OK {
+		return "shared-rule", fmt.Sprintf("rule %q added to a second schema after it was used by a first one: %s", text, r2)
+	}
+	for _, p := range enumProbes {
+		a, b := lib.Validate(s2, p), lib.Validate(inline, p)
+		if a.OK != b.OK {
+			return "shared-rule", fmt.Sprintf("document %s: rule %q shared by two schemas -> %s, inline list -> %s", p, text, a, b)
+		}
+	}
+	after, err := shared.Values()
+	if err != nil || len(after) != len(vals) {
+		return "shared-rule", fmt.Sprintf("rule %q: Values() after use by two schemas: %d entries (%v), before use %d", text, len(after), err, len(vals))
+	}
+	for i := range after {
+		if after[i].Type != vals[i].Type || string(after[i].Value) != string(vals[i].Value) {
+			return "shared-rule", fmt.Sprintf("rule %q: Values()[%d] after use by two schemas is %s %q, before use %s %q", text, i, after[i].Type, after[i].Value, vals[i].Type, vals[i].Value)
 		}
 	}
 	return "", ""
